@@ -1,6 +1,72 @@
 package layer4
 
 // Verification shim (injected by overlay; never committed to the repository).
+// Add-only exported accessors; nothing is rewritten.
+
+import (
+	"net"
+	"time"
+
+	"go.uber.org/zap"
+)
 
 func VerifFreeze(cx *Connection)   { cx.freeze() }
 func VerifUnfreeze(cx *Connection) { cx.unfreeze() }
+func VerifPrefetch(cx *Connection) error { return cx.prefetch() }
+
+// VerifNewRoute builds a provisioned route without Caddy's module loader.
+func VerifNewRoute(sets []MatcherSet, handlers []NextHandler) *Route {
+	r := &Route{matcherSets: MatcherSets(sets)}
+	for _, h := range handlers {
+		r.middleware = append(r.middleware, wrapHandler(h))
+	}
+	return r
+}
+
+// VerifBuffered is the number of prefetched bytes not yet consumed.
+func VerifBuffered(cx *Connection) int { return len(cx.buf) - cx.offset }
+func VerifBufLen(cx *Connection) int   { return len(cx.buf) }
+func VerifBufCap(cx *Connection) int   { return cap(cx.buf) }
+func VerifOffset(cx *Connection) int   { return cx.offset }
+func VerifMatching(cx *Connection) bool { return cx.matching }
+func VerifBuf(cx *Connection) []byte   { return cx.buf }
+
+// VerifSetState puts a Connection into an arbitrary representation state.
+func VerifSetState(cx *Connection, buf []byte, offset, frozenOffset int, matching bool) {
+	cx.buf, cx.offset, cx.frozenOffset, cx.matching = buf, offset, frozenOffset, matching
+}
+
+const VerifPrefetchChunkSize = prefetchChunkSize
+
+func VerifNopHandler() Handler      { return nopHandler{} }
+func VerifListenerHandler() Handler { return listenerHandler{} }
+
+// VerifNewServer builds a provisioned server around a compiled route.
+func VerifNewServer(routes RouteList, timeout time.Duration) *Server {
+	s := &Server{Routes: routes, logger: zap.NewNop()}
+	s.compiledRoute = routes.Compile(s.logger, timeout, nopHandler{})
+	return s
+}
+func VerifServerHandle(s *Server, c net.Conn)         { s.handle(c) }
+func VerifServePacket(s *Server, pc net.PacketConn) error { return s.servePacket(pc) }
+func VerifBufPoolPut(b []byte)                          { bufPool.Put(b) }
+func VerifBufPoolGet() []byte                           { return bufPool.Get().([]byte) }
+
+// VerifNewListenerWrapper builds a provisioned listener wrapper.
+func VerifNewListenerWrapper(routes RouteList, timeout time.Duration) *ListenerWrapper {
+	lw := &ListenerWrapper{Routes: routes, logger: zap.NewNop()}
+	lw.compiledRoute = routes.Compile(lw.logger, timeout, listenerHandler{})
+	return lw
+}
+
+// VerifNewPacketConn builds a virtual UDP connection as servePacket does.
+func VerifNewPacketConn(pc net.PacketConn, addr net.Addr, closeCh chan string) net.Conn {
+	return &packetConn{PacketConn: pc, readCh: make(chan *packet, 5), addr: addr, closeCh: closeCh}
+}
+
+// VerifPacketConnFeed delivers one datagram to a virtual UDP connection.
+func VerifPacketConnFeed(c net.Conn, b []byte) {
+	buf := udpBufPool.Get().([]byte)
+	n := copy(buf, b)
+	c.(*packetConn).readCh <- &packet{pooledBuf: buf, n: n, addr: c.(*packetConn).addr}
+}
